@@ -25,6 +25,7 @@ var c06Cfg = kit.WorldCfg{
 	Links: []kit.LinkCfg{
 		{A: "things", FieldA: "tlinks", B: "targets", FieldB: "plinks"},
 		{A: "things", FieldA: "rct", B: "targets", FieldB: "rcp", RefCounted: true},
+		{A: "kids", FieldA: "klinks", B: "targets", FieldB: "kback"}, // a link collection declared on the child store
 	},
 }
 
@@ -32,9 +33,9 @@ var c06IDs = map[string][]string{
 	"things":  {"id-th1", "id-th2", "id-th3"},
 	"kids":    {"id-th1", "id-th2", "id-th3"},
 	"targets": {"id-tg1", "id-tg2", "id-tg3"},
-	"deps":    {"id-dp1", "id-dp2"},
+	"deps":    {"id-dp1", "id-dp2", "id-dp3", "id-dp4"},
 	"holders": {"id-ho1", "id-ho2"},
-	"owned":   {"id-ow1", "id-ow2"},
+	"owned":   {"id-ow1", "id-ow2", "id-ow3", "id-ow4"},
 }
 
 type c06Case struct {
@@ -85,7 +86,16 @@ func genC06(t *rapid.T) c06Case {
 			fromThing := rapid.Bool().Draw(t, l+"_side")
 			op := kit.Op{}
 			self, other := c06IDs["things"], c06IDs["targets"]
-			if fromThing {
+			if rapid.IntRange(0, 3).Draw(t, l+"_childLink") == 0 {
+				// the collection that lives on the child store
+				rc = false
+				if fromThing {
+					op.Store, op.Field = "kids", "klinks"
+				} else {
+					op.Store, op.Field = "targets", "kback"
+					self, other = other, self
+				}
+			} else if fromThing {
 				op.Store, op.Field = "things", map[bool]string{false: "tlinks", true: "rct"}[rc]
 			} else {
 				op.Store, op.Field = "targets", map[bool]string{false: "plinks", true: "rcp"}[rc]
@@ -179,10 +189,13 @@ func genC06(t *rapid.T) c06Case {
 	}
 	for _, lc := range c06Cfg.Links {
 		coll := lc.A + "." + lc.FieldA
-		if len(m.LinkedFrom(coll, c.VictimStore == lc.B, c.Victim)) > 0 {
-			if lc.RefCounted {
+		if len(m.LinkedFrom(coll, c.VictimStore == lc.B, c.Victim)) > 0 && (m.BaseStore(lc.A) == c.VictimStore || lc.B == c.VictimStore) {
+			switch {
+			case lc.RefCounted:
 				kinds["ref-counted-link"] = true
-			} else {
+			case lc.A == "kids":
+				kinds["child-store-link"] = true
+			default:
 				kinds["link"] = true
 			}
 		}
@@ -195,7 +208,23 @@ func genC06(t *rapid.T) c06Case {
 	if _, isKid := e.Kid["kids"]; isKid && rapid.Bool().Draw(t, "viaKid") {
 		via = "kids"
 	}
-	c.H.Txs = append(c.H.Txs, kit.TxSpec{Ops: []kit.Op{{Kind: "delete", Store: via, ID: c.Victim}}})
+	delTx := kit.TxSpec{}
+	if rapid.IntRange(0, 2).Draw(t, "cascadeBurst") == 0 {
+		// the deleting transaction first (re)points several cascade-wired referrers at the victim: the cascade
+		// then has to remove a run of adjacent rows from a bucket this transaction has already written to
+		refStore := map[string]string{"things": "deps", "targets": "owned"}[c.VictimStore]
+		k := rapid.IntRange(2, 4).Draw(t, "burstSize")
+		for _, rid := range c06IDs[refStore][:k] {
+			kind := "create"
+			if _, exists := m.Ents[refStore][rid]; exists {
+				kind = "update"
+			}
+			delTx.Ops = append(delTx.Ops, kit.Op{Kind: kind, Store: refStore, ID: rid, Spec: &kit.EntSpec{Name: "burst", Ref: kit.Sp(c.Victim)}})
+		}
+		c.Kinds = append(c.Kinds, "cascade-burst-in-deleting-tx")
+	}
+	delTx.Ops = append(delTx.Ops, kit.Op{Kind: "delete", Store: via, ID: c.Victim})
+	c.H.Txs = append(c.H.Txs, delTx)
 	// re-create the same id with fresh values
 	spec := &kit.EntSpec{Name: "fresh", Roles: []string{"r2"}, Note: "fresh"}
 	c.H.Txs = append(c.H.Txs, kit.TxSpec{Ops: []kit.Op{{Kind: "create", Store: c.VictimStore, ID: c.Victim, Spec: spec}}})
